@@ -306,3 +306,55 @@ func scenJailAndEvidence(start int64) *scenario {
 }
 
 var _ = uint256.NewInt
+
+// limiter rejection followed by further stake changes of the same delegatee inside one block:
+// needs >= 3 validators (the limiter is armed), updatable ratio 33, no individual limit.
+func scenLimiterRejection(start int64) *scenario {
+	s := &scenario{name: "limiter-rejection", start: start}
+	s.step = func(sc *scenCtx, rel int64) {
+		v, d := reservedKey(sc.hr, 0), reservedKey(sc.hr, 1)
+		if v == nil || d == nil {
+			return
+		}
+		sum := int64(0)
+		for _, g := range sc.hr.G.G.Validators {
+			sum += g.Power
+		}
+		md := new(big.Int).Div(bigDec(sc.pre.Params.MinDelegatorStake), big1e18).Int64()
+		switch rel {
+		case 0:
+			sc.add(v, rctypes.TRX_STAKING, v.Addr, e18(2*sum+minPowerOf(&sc.pre.Params)), nil, "big-self-stake", nil)
+		case 1:
+			sc.add(d, rctypes.TRX_STAKING, v.Addr, e18(2+md), nil, "delegate-1", nil)
+			sc.add(d, rctypes.TRX_STAKING, v.Addr, e18(3+md), nil, "delegate-2", nil)
+		case 3, 5:
+			dg := sc.pre.Delegatees[v.A()]
+			if dg == nil {
+				return
+			}
+			var own, deleg []*MStake
+			for _, st := range dg.Stakes {
+				if st.Owner == v.A() {
+					own = append(own, st)
+				} else if st.Owner == d.A() {
+					deleg = append(deleg, st)
+				}
+			}
+			if len(own) == 0 || len(deleg) == 0 {
+				return
+			}
+			// accepted small change, then a change beyond the updatable budget (must be rejected without a trace),
+			// then another small change of the same delegatee (must still be accepted)
+			sc.add(d, rctypes.TRX_UNSTAKING, v.Addr, new(big.Int), &rctypes.TrxPayloadUnstaking{TxHash: addrBytes(deleg[0].TxHash)}, "small-unstake-1", nil)
+			ti := sc.add(v, rctypes.TRX_UNSTAKING, v.Addr, new(big.Int), &rctypes.TrxPayloadUnstaking{TxHash: addrBytes(own[0].TxHash)}, "unstake-beyond-updatable-limit", nil)
+			ti.Intend = false
+			if len(deleg) > 1 {
+				sc.add(d, rctypes.TRX_UNSTAKING, v.Addr, new(big.Int), &rctypes.TrxPayloadUnstaking{TxHash: addrBytes(deleg[1].TxHash)}, "small-unstake-2", nil)
+			} else {
+				sc.add(d, rctypes.TRX_STAKING, v.Addr, e18(2+md), nil, "small-delegation-after-rejection", nil)
+			}
+			sc.hr.C.Count("scenario.limiter-rejection", 1)
+		}
+	}
+	return s
+}
